@@ -225,6 +225,10 @@ type Writer struct {
 	// Each entry describes a _frexp_result_* struct to emit.
 	frexpResultTypes []wrappedMathResult
 
+	// predeclaredStructNames maps the default spelling of a modf/frexp result
+	// struct to the name the namer assigned to its type.
+	predeclaredStructNames map[string]string
+
 	// atomicCompareExchangeTypes tracks the _atomic_compare_exchange_result_* struct
 	// variants needed (by scalar kind and width). Each entry describes a struct and
 	// a pair of template helper functions to emit.
@@ -838,12 +842,21 @@ func (w *Writer) writeRayQueryStruct() {
 	w.WriteLine("")
 }
 
+// predeclaredStructName returns the name registered for the modf/frexp result struct
+// whose default spelling is def.
+func (w *Writer) predeclaredStructName(def string) string {
+	if name, ok := w.predeclaredStructNames[def]; ok {
+		return name
+	}
+	return def
+}
+
 // writeModfFrexpStructs emits _modf_result_* and _frexp_result_* struct definitions
 // and their corresponding naga_modf/naga_frexp wrapper functions.
 // Matches Rust naga output.
 func (w *Writer) writeModfFrexpStructs() {
 	for _, r := range w.modfResultTypes {
-		name := r.modfStructName()
+		name := w.predeclaredStructName(r.modfStructName())
 		valType := wrappedMathMSLType(r.scalar, r.vectorSize)
 		w.WriteLine("struct %s {", name)
 		w.PushIndent()
@@ -853,7 +866,7 @@ func (w *Writer) writeModfFrexpStructs() {
 		w.WriteLine("};")
 	}
 	for _, r := range w.frexpResultTypes {
-		name := r.frexpStructName()
+		name := w.predeclaredStructName(r.frexpStructName())
 		valType := wrappedMathMSLType(r.scalar, r.vectorSize)
 		// frexp exp field is always int (or int vector)
 		expType := wrappedMathMSLType(ir.ScalarType{Kind: ir.ScalarSint, Width: 4}, r.vectorSize)
@@ -870,7 +883,7 @@ func (w *Writer) writeModfFrexpStructs() {
 // These must appear after the struct definitions and before entry points.
 func (w *Writer) writeModfFrexpFunctions() {
 	for i, r := range w.modfResultTypes {
-		structName := r.modfStructName()
+		structName := w.predeclaredStructName(r.modfStructName())
 		argType := wrappedMathMSLType(r.scalar, r.vectorSize)
 		if i > 0 {
 			w.WriteLine("")
@@ -884,7 +897,7 @@ func (w *Writer) writeModfFrexpFunctions() {
 		w.WriteLine("}")
 	}
 	for i, r := range w.frexpResultTypes {
-		structName := r.frexpStructName()
+		structName := w.predeclaredStructName(r.frexpStructName())
 		argType := wrappedMathMSLType(r.scalar, r.vectorSize)
 		// frexp uses int (or int vector) for the exponent output
 		expScalar := ir.ScalarType{Kind: ir.ScalarSint, Width: 4}
@@ -1602,6 +1615,15 @@ func (w *Writer) registerNames() error {
 		name := w.namer.call(baseName)
 		w.names[nameKey{kind: nameKeyType, handle1: uint32(handle)}] = name
 		w.typeNames[ir.TypeHandle(handle)] = name
+		// The modf/frexp result structs are written by writeModfFrexpStructs under the
+		// spelling the namer gives them when nothing else claims it; remember the
+		// spelling it actually gave (a user struct may have taken the default one).
+		if strings.HasPrefix(typ.Name, "__modf_result_") || strings.HasPrefix(typ.Name, "__frexp_result_") {
+			if w.predeclaredStructNames == nil {
+				w.predeclaredStructNames = make(map[string]string)
+			}
+			w.predeclaredStructNames[sanitizeName(typ.Name)+"_"] = name
+		}
 
 		// Register struct member names using a fresh namespace scope.
 		// Struct members only need unique names among themselves (not globally),
